@@ -144,6 +144,9 @@ def edit_finding(d):
             return "C17-F07"
         if rule == "after-keyword" and shape == "insert":
             return "C17-F08"
+        if rule == "before-continuation" and shape == "insert" and prev is not None and prev.type == A._mods().NAME \
+                and prev.string in A.KEYWORDS:
+            return "C17-F08"        # the forced blank lands between the keyword and a backslash-newline glued to it
         if rule == "continuation-indent" and shape == "insert":
             return "C17-F13"
         if rule == "continuation-indent" and shape == "remove" and nxt is not None and not formatter_sees_subproc(_line_of(d, nxt)):
